@@ -170,6 +170,11 @@ func checkAndUpdateTotalPendingStakesOfValidator(cfg *params.YouParams, db *stat
 		totalTokens.Set(val.Token)
 	}
 	totalTokens.Add(totalTokens, deltaTokens)
+	if totalTokens.Sign() < 0 {
+		// handleWithdraw keeps the self-token remainder in this record: a later
+		// delegation-sub may exceed it.  A negative value cannot be RLP-encoded.
+		totalTokens.SetUint64(0)
+	}
 	if deltaTokens.Sign() > 0 {
 		stake := params.YOUToStake(totalTokens).Uint64()
 		if threshold := cfg.MaxStakes[val.Role]; threshold > 0 && stake > threshold {
